@@ -176,6 +176,9 @@ pub fn build(prop: &str, seed: u64, tier: &str, corp: &Corpus) -> Result<PathBuf
     let _ = (seed, tier);
     let root = target_dir().join("gen").join(prop);
     std::fs::create_dir_all(&root).map_err(|e| e.to_string())?;
+    // two checks of the same property must not rewrite the workspace under each other
+    let lock = std::fs::File::create(root.join(".lock")).map_err(|e| e.to_string())?;
+    lock.lock().map_err(|e| format!("cannot lock {}: {e}", root.display()))?;
     let mut skip: BTreeSet<String> = BTreeSet::new();
     let opt = std::env::var("E3_GEN_OPT").unwrap_or_else(|_| "1".into());
     for round in 0..4 {
